@@ -268,6 +268,19 @@ class Frame(FakeFrame):
                 keep.append(i)
         return self._new({c: [self._d[c][i] for i in keep] for c in self.columns}, order=self.columns)
 
+    def hash_rows(self, seed=0, seed_1=None, seed_2=None, seed_3=None):
+        """one integer per row, a function of the row's values only (polars: a 64-bit hash per row)"""
+        out = []
+        for i in range(self.height):
+            h = 1469598103934665603
+            for c in self.columns:
+                cell = self._d[c][i]
+                text = "\x00" if cell is None else "\x01" + str(cell)
+                for ch in text + "\x02":
+                    h = ((h ^ ord(ch)) * 1099511628211) % (1 << 64)
+            out.append(h)
+        return Series(out, "hash_rows")
+
     def __eq__(self, other):
         return isinstance(other, FakeFrame) and self.columns == other.columns and self._d == other._d
 
